@@ -353,7 +353,7 @@ MIRI_FIXED = ["'''\na\\ud800'''", "a.in", "x.true.y", "99999999999999999999", "'
               "a[]", "--9223372036854775808", "-(-9223372036854775808)", "", " ", "﻿", "1 +", "ä", "𝄞", "`e i`", "r'''\x00'''", "a.b.c.d.e.f"]
 
 
-def miri_stage(seed, scratch, total, notes, nproc=14, per=20):
+def miri_stage(seed, scratch, total, notes, nproc=14, per=50):
     """The parser itself (antlr4rust is full of `unsafe`) under Miri: short hostile texts of every family."""
     import runner
     import time as _t
